@@ -1,4 +1,5 @@
-(* C08, forward simulation for HEAP statements, part 2: the statements that do not touch the heap
+(* CHAIN VERSION of Proof/RVHSimStmt.v (mechanical port: the relation is Proof/RVKSimRel.hrel, objects of any number of fields).
+   C08, forward simulation for HEAP statements, part 2: the statements that do not touch the heap
    (Literal, Op, IfC, Exit, Call) under the relation `hrel` of Proof/RVKSimRel.v.  The proofs are those of
    Proof/RVSimStmt.v (the selection lemmas of Proof/RVSel.v, nothing re-proved); the heap words and the
    allocator registers are untouched, every live register of every other variable is preserved.  The
